@@ -37,7 +37,13 @@ def gen(rng, nclasses=None, features='main'):
                 continue
             names.add((nm, sg))
             virt = rng.random() < 0.6
-            methods.append({'name': nm, 'sig': sg, 'virtual': virt, 'pure': virt and rng.random() < 0.4, 'deleted': False})
+            pure = virt and rng.random() < 0.4
+            # override / final are only legal on a function that is virtual here or overrides a virtual of a base
+            spec = ''
+            inherited = (nm, sg) in inherited_virtuals(cs, bases)
+            if (virt or inherited) and not pure and rng.random() < 0.35:
+                spec = rng.choice([' final', ' override final', ' override']) if inherited else ' final'
+            methods.append({'name': nm, 'sig': sg, 'virtual': virt, 'pure': pure, 'deleted': False, 'spec': spec})
 
         def special(p):
             if rng.random() > p:
@@ -55,6 +61,23 @@ def gen(rng, nclasses=None, features='main'):
                    'cctor_nonconst': bool(cc) and features == 'all' and rng.random() < 0.3,
                    'other_ctor': rng.random() < 0.2, 'move': rng.random() < 0.1, 'dtor': dtor})
     return cs
+
+
+def inherited_virtuals(cs, bases):
+    """(name, sig) of every function that is virtual in some direct or indirect base."""
+    out = set()
+    todo = [x['cls'] for x in bases]
+    seen = set()
+    while todo:
+        j = todo.pop()
+        if j in seen:
+            continue
+        seen.add(j)
+        for m in cs[j]['methods']:
+            if m['virtual'] or (m['name'], m['sig']) in inherited_virtuals(cs, cs[j]['bases']):
+                out.add((m['name'], m['sig']))
+        todo += [x['cls'] for x in cs[j]['bases']]
+    return out
 
 
 def b(x):
@@ -102,7 +125,7 @@ def render(cs, prefix='K'):
             else:
                 L.append('  %s%d %s;' % (prefix, ty[1], fn))
         for m in c['methods']:
-            L.append('  %svoid m%d%s%s;' % ('virtual ' if m['virtual'] else '', m['name'], SIGS[m['sig']], ' = 0' if m['pure'] else ''))
+            L.append('  %svoid m%d%s%s%s;' % ('virtual ' if m['virtual'] else '', m['name'], SIGS[m['sig']], m.get('spec', ''), ' = 0' if m['pure'] else ''))
 
         def sp(s, text):
             L.append('%s:' % ACC[s['access']])
